@@ -208,8 +208,8 @@ class C17(Property):
         elif st["paused"]:
           script.append(["resume" if W.choose("fixp", 2) == 0 else "stop", i])
     wl = {"wait": wait, "script": script,
-          "ctx": W.weighted("ctx", [(3, "close"), (1, "terminate"),
-                                    (2, "with")]),
+          "ctx": W.weighted("ctx", [(6, "close"), (2, "terminate"),
+                                    (3, "with"), (1, "with-exc")]),
           "api": W.weighted("api", [(5, None), (1, "jack")]),
           "gchunk": gchunk,
           "after": {"close2": bool(W.choose("close2", 2)),
@@ -321,6 +321,8 @@ class C17(Property):
            wait=True),
       dict(script=[play("list", 1), play("list", 1), play("list", 1)]),
       dict(script=[], ctx="terminate"),
+      dict(script=[play("list", 9, 2), play("gen", 4)], wait=True,
+           ctx="with-exc"),
       dict(script=[["record", {"chunk_size": 2, "dfmt": "f"}],
                    ["rec_take", 3], play("list", 2)], wait=True),
       dict(script=[play("periodic", 2), play("list", 5, 2), ["stop", 0],
@@ -492,7 +494,18 @@ class C17(Property):
       aio = lio.AudioIO(workload["wait"], api=api) if api else \
         lio.AudioIO(workload["wait"])
       ctx = workload["ctx"]
-      if ctx == "with":
+      if ctx == "with-exc":
+        # the with-block is left through an exception
+        class _Boom(Exception):
+          pass
+        try:
+          with aio as a2:
+            do_script(a2)
+            before_close(aio)
+            raise _Boom()
+        except _Boom:
+          pass
+      elif ctx == "with":
         with aio as a2:
           do_script(a2)
           before_close(aio)
@@ -617,7 +630,8 @@ class C17(Property):
       else:
         out.append("%s(%r)" % (op[0], op[1]))
     out.append({"close": "close()", "terminate": "terminate()",
-                "with": "leave with-block"}[workload["ctx"]])
+                "with": "leave with-block", "with-exc":
+                "leave with-block through an exception"}[workload["ctx"]])
     if workload["after"].get("close2"):
       out.append("close() again")
     if workload["after"].get("play_after"):
